@@ -154,6 +154,7 @@ class Process(StateMachine, persistence.Savable, metaclass=ProcessStateMachineMe
     _spec_class = ProcessSpec
     # Default placeholders, will be populated in init()
     _stepping = False
+    _executing = False  # the part of a step in which the state is executed (and can be interrupted)
     _pausing: Optional[futures.CancellableAction] = None
     _paused: Optional[persistence.SavableFuture] = None
     _killing: Optional[futures.CancellableAction] = None
@@ -1141,9 +1142,9 @@ class Process(StateMachine, persistence.Savable, metaclass=ProcessStateMachineMe
             interrupt_exception = process_states.PauseInterruption(msg_text)
             self._set_interrupt_action_from_exception(interrupt_exception)
             self._pausing = self._interrupt_action
-            # Try to interrupt the state (while transitioning there is nothing to interrupt, the action is enacted right
-            # after the transition)
-            if not self._transitioning:
+            # Try to interrupt the state (once it has been executed there is nothing to interrupt any more, the action
+            # is enacted right after the step's transition)
+            if self._executing and not self._transitioning:
                 self._state.interrupt(interrupt_exception)
             return cast(futures.CancellableAction, self._interrupt_action)
 
@@ -1273,7 +1274,7 @@ class Process(StateMachine, persistence.Savable, metaclass=ProcessStateMachineMe
             interrupt_exception = process_states.KillInterruption(msg_text)
             self._set_interrupt_action_from_exception(interrupt_exception)
             self._killing = self._interrupt_action
-            if not self._transitioning:
+            if self._executing and not self._transitioning:
                 self._state.interrupt(interrupt_exception)
             return cast(futures.CancellableAction, self._interrupt_action)
 
@@ -1351,7 +1352,11 @@ class Process(StateMachine, persistence.Savable, metaclass=ProcessStateMachineMe
             self._stepping = True
             next_state = None
             try:
-                next_state = await self._run_task(self._state.execute)
+                self._executing = True
+                try:
+                    next_state = await self._run_task(self._state.execute)
+                finally:
+                    self._executing = False
             except process_states.Interruption as exception:
                 # If the interruption was caused by a call to a Process method then there should
                 # be an interrupt action ready to be executed, so just check if the cookie matches
